@@ -1,0 +1,137 @@
+//go:build verif
+
+package incr
+
+import "math"
+
+// This file is compiled only with the `verif` build tag. It gives the external
+// verification harness (in /verif) thin wrappers over the unexported recompute heap and
+// adjust-heights heap so that they can be driven operation by operation and compared with
+// their formal model. Nothing here changes behaviour; nothing is compiled without the tag.
+
+// VerifNode is a bare node with no behaviour, used to drive the heaps directly.
+type VerifNode struct {
+	n *Node
+}
+
+// Node implements INode.
+func (v *VerifNode) Node() *Node { return v.n }
+
+// VerifNewNode returns a bare node with the given identifier ordinal and height.
+func VerifNewNode(ordinal uint64, height int) *VerifNode {
+	n := NewNode("verif")
+	n.id = verifIdentifier(ordinal)
+	n.height = height
+	v := &VerifNode{n: n}
+	n.self = v
+	return v
+}
+
+func verifIdentifier(ordinal uint64) (id Identifier) {
+	for i := 0; i < 8; i++ {
+		id[15-i] = byte(ordinal >> (8 * i))
+	}
+	return
+}
+
+// VerifOrdinal recovers the ordinal of an identifier made by VerifNewNode.
+func VerifOrdinal(id Identifier) (ordinal uint64) {
+	for i := 0; i < 8; i++ {
+		ordinal |= uint64(id[15-i]) << (8 * i)
+	}
+	return
+}
+
+// VerifHeap wraps a recompute heap.
+type VerifHeap struct {
+	rh *recomputeHeap
+}
+
+// VerifNewHeap returns a fresh recompute heap with the given initial capacity.
+func VerifNewHeap(maxHeight int) *VerifHeap {
+	return &VerifHeap{rh: newRecomputeHeap(maxHeight)}
+}
+
+func (h *VerifHeap) Add(n INode)             { h.rh.add(n) }
+func (h *VerifHeap) AddIfNotPresent(n INode) { h.rh.addIfNotPresent(n) }
+func (h *VerifHeap) Remove(n INode)          { h.rh.remove(n) }
+func (h *VerifHeap) Fix(n INode)             { h.rh.fix(n) }
+func (h *VerifHeap) Len() int                { return h.rh.len() }
+func (h *VerifHeap) Clear() []INode          { return h.rh.clear() }
+func (h *VerifHeap) SanityCheck() error      { return h.rh.sanityCheck() }
+func (h *VerifHeap) Has(n INode) bool        { return h.rh.has(n) }
+
+// RemoveMin pops the minimum node, as the serial stabilization loop does.
+func (h *VerifHeap) RemoveMin() (INode, bool) {
+	h.rh.mu.Lock()
+	defer h.rh.mu.Unlock()
+	return h.rh.removeMinUnsafe()
+}
+
+// MinHeight reports minHeightUnsafe; ok is false when the heap is empty.
+func (h *VerifHeap) MinHeight() (height int, ok bool) {
+	h.rh.mu.Lock()
+	defer h.rh.mu.Unlock()
+	height = h.rh.minHeightUnsafe()
+	return height, height != math.MaxInt
+}
+
+// TakeMinBlock detaches the minimum height block and drains it, as one parallel
+// stabilization round does.
+func (h *VerifHeap) TakeMinBlock() (out []INode) {
+	var iter recomputeHeapListIter
+	h.rh.setIterToMinHeight(&iter)
+	for {
+		n, ok := iter.Next()
+		if !ok {
+			return
+		}
+		out = append(out, n)
+	}
+}
+
+// IDs lists the queued nodes by height, then in queue order.
+func (h *VerifHeap) IDs() (out []Identifier) {
+	for index := range h.rh.heights {
+		cursor := h.rh.heights[index].head
+		for cursor != nil {
+			out = append(out, cursor.id)
+			cursor = cursor.nextInRecomputeHeap
+		}
+	}
+	return
+}
+
+// VerifSetHeight sets a bare node's height directly.
+func VerifSetHeight(n INode, height int) { n.Node().height = height }
+
+// VerifAdjust wraps an adjust-heights heap together with the recompute heap it repairs.
+type VerifAdjust struct {
+	ah *adjustHeightsHeap
+	rh *recomputeHeap
+}
+
+// VerifNewAdjust returns a fresh adjust-heights heap for the given height limit.
+func VerifNewAdjust(maxHeight int) *VerifAdjust {
+	return &VerifAdjust{ah: newAdjustHeightsHeap(maxHeight), rh: newRecomputeHeap(maxHeight)}
+}
+
+// Heap exposes the paired recompute heap.
+func (a *VerifAdjust) Heap() *VerifHeap { return &VerifHeap{rh: a.rh} }
+
+// Link records an edge on both endpoints without touching heights.
+func (a *VerifAdjust) Link(child, parent INode) {
+	parent.Node().addChildren(child)
+	child.Node().addParents(parent)
+}
+
+// AdjustHeights runs adjustHeights for a freshly linked edge.
+func (a *VerifAdjust) AdjustHeights(child, parent INode) error {
+	return a.ah.adjustHeights(a.rh, child, parent)
+}
+
+// SetHeight runs setHeight (with the limit check).
+func (a *VerifAdjust) SetHeight(n INode, height int) error { return a.ah.setHeight(n, height) }
+
+// Len is the number of nodes left in the adjust-heights heap.
+func (a *VerifAdjust) Len() int { return a.ah.len() }
